@@ -127,11 +127,14 @@ def _recon_traces(rep, quick, seed):
     for ci, (s, npat, bs, ratio, mode) in enumerate(combos):
         # seeds: zero (falsy), small, large, and a Generator object
         rs = [0, 7 + (seed % 5), 2 ** 31 + 11, 1][ci % 4]
+        # preprocessing may chunk its overlap computation (preprocess(batch_size=...)): nothing but the batcher may
+        # draw from the reconstruction's generator, or "reset replays the first run" breaks
+        pbs = [None, 4, 5][ci % 3]
         # run A, then reset + rerun (must replay), recorded through the hook
         sink: list = []
         vt.set_sink(sink)
         try:
-            p = tp.build(s, perturb=0.05, rng=rs, val_ratio=ratio, val_mode=mode)
+            p = tp.build(s, perturb=0.05, rng=rs, val_ratio=ratio, val_mode=mode, preprocess_batch_size=pbs)
             p.reconstruct(num_iters=2, batch_size=bs, optimizer_params=json.loads(json.dumps(opt)))
             la = [float(x) for x in p.iter_losses]
             p.reconstruct(num_iters=2, batch_size=bs, reset=True,
@@ -141,7 +144,7 @@ def _recon_traces(rep, quick, seed):
             vt.set_sink(None)
         tr = [_norm(e) for e in sink]
         traces.append(tr)
-        meta = {"kind": "reconstruct+reset", "patterns": npat, "bs": bs, "ratio": ratio, "mode": mode}
+        meta = {"kind": "reconstruct+reset", "patterns": npat, "bs": bs, "ratio": ratio, "mode": mode, "preprocess_bs": pbs}
         metas.append(meta)
         rep.add_eval(2)
         if la != lb[-2:] or len(lb) != 2:
@@ -151,7 +154,8 @@ def _recon_traces(rep, quick, seed):
         sink2: list = []
         vt.set_sink(sink2)
         try:
-            q = tp.build(s, perturb=0.05, rng=rs, val_ratio=ratio, val_mode=mode)
+            q = tp.build(s, perturb=0.05, rng=rs, val_ratio=ratio, val_mode=mode,
+                         preprocess_batch_size=[5, None, 4][ci % 3])      # (another chunking than run A)
             q.reconstruct(num_iters=2, batch_size=bs, optimizer_params=json.loads(json.dumps(opt)))
             lq = [float(x) for x in q.iter_losses]
         finally:
